@@ -29,6 +29,7 @@ def main(seed, tier):
         agg["slow"] = agg.get("slow", 0) + out.get("slow_reference", 0)
         agg["forkserver_runs"] += out.get("forkserver_runs", 0)
         agg["forkserver_discrepancy"] += out.get("forkserver_discrepancy", 0)
+        agg["timeouts_not_confirmed"] = agg.get("timeouts_not_confirmed", 0) + out.get("timeouts_not_confirmed", 0)
         merge(fired, out["fired"])
         merge(configured, out["configured"])
         merge(probes, out["probes"])
@@ -88,6 +89,7 @@ def main(seed, tier):
         "runs_via_forkserver": agg["forkserver_runs"],
         "runs_via_fresh_exec": agg["runs"] - agg["forkserver_runs"],
         "forkserver_vs_exec_discrepancies": agg["forkserver_discrepancy"],
+        "timeouts_under_forkserver_not_confirmed_by_fresh_exec": agg.get("timeouts_not_confirmed", 0),
         "duplicate_violation_reports_suppressed": agg["dups"],
         "items_with_slow_reference_run_sampled_instead_of_enumerated": agg.get("slow", 0),
         "known_findings_matched": known,
